@@ -153,6 +153,33 @@ Theorem c16_clone_bisimilar_gp_partial :
 Proof. intros C M meqb ms. exact (mb_get_config_eqv C M meqb ms). Qed.
 Print Assumptions c16_clone_bisimilar_gp_partial.
 
+(* allow_duplicates = True: FULL bisimulation at run level. For every constructor arguments,
+   every history (suggestions, finite / non-finite results, failures), every snapshot point and
+   every continuation, the clone's answers are identical to the original's: with
+   allow_duplicates the internal random searcher excludes nothing and registers nothing, so it
+   stays in its initial state and dropping it in clone_from_state is unobservable. (For
+   allow_duplicates = False this is false in the random branch: c16_clone_gp_retry_accounting_refuted.) *)
+Theorem c16_clone_bisimilar_gp_allow_duplicates :
+  forall (C M : Type) (meqb : M -> M -> bool) (ms : C -> M)
+         (init : list C) num_init size retries outer (history continuation : list (mb_event C)),
+  let s1 := fst (mb_run C M meqb ms (mb_ctor C M init num_init true size retries outer) history) in
+  snd (mb_run C M meqb ms (mb_clone C M s1 (mb_get_state C M s1)) continuation)
+    = snd (mb_run C M meqb ms s1 continuation).
+Proof.
+  intros C M meqb ms init ni sz rt outer hist cont.
+  exact (mb_clone_bisimilar_allow_dup C M meqb ms init ni sz rt outer hist cont).
+Qed.
+Print Assumptions c16_clone_bisimilar_gp_allow_duplicates.
+
+Example c16_example_gp_allow_duplicates :
+  let idf := fun c : nat => c in
+  let s1 := fst (mb_run nat nat Nat.eqb idf (mb_ctor nat nat [] 10 true (Some 3%nat) 100 50)
+                   [MSuggest nat 0%Z [DCfg 0%nat] [] idf; MNonFinite nat 0%Z]) in
+  let cont := [MSuggest nat 1%Z [DCfg 0%nat; DCfg 1%nat] [] idf] in
+  snd (mb_run nat nat Nat.eqb idf s1 cont) = [Ok (Some 1%nat)] /\
+  snd (mb_run nat nat Nat.eqb idf (mb_clone nat nat s1 (mb_get_state nat nat s1)) cont) = [Ok (Some 1%nat)].
+Proof. vm_compute. split; reflexivity. Qed.
+
 Theorem c16_clone_gp_is_equivalent_state :
   forall (C M : Type) (s : mb_state C M), mb_eqv C M s (mb_clone C M s (mb_get_state C M s)).
 Proof. intros C M s. exists None. reflexivity. Qed.
